@@ -825,6 +825,16 @@ func (t *TS) step(s *State, in ssa.Instruction) []*State {
 		switch base.K {
 		case KInode:
 			t.useInode(s, in, base, "field "+fieldNameAt(x))
+		case KPtr:
+			// field of a variable reached through a pointer (a struct captured by reference): the cell of the
+			// enclosing frame, named as cellOf names it there
+			if base.Cell != "$elem" && base.Cell != "" {
+				sep := ""
+				if !strings.HasSuffix(base.Cell, ".") {
+					sep = "."
+				}
+				s.Env[x] = AV{K: KPtr, Cell: base.Cell + sep + fieldNameAt(x)}
+			}
 		case KNil:
 			if isNamed(x.X.Type(), "/inode", "Inode") || isNamed(x.X.Type(), "/fstxn", "FsTxn") {
 				t.event("nilderef", in, "field access through a nil pointer", "", TxnSt{}, true, nil)
@@ -1005,6 +1015,12 @@ func (t *TS) call(s *State, call *ssa.Call) []*State {
 			if fav.K == KFunc {
 				callee = fav.Fn
 			}
+		}
+	}
+	if callee != nil && callee.Parent() != nil && fav.K != KFunc {
+		// a closure called directly: its captured variables come with the closure value
+		if a := t.eval(s, cc.Value); a.K == KFunc {
+			fav = a
 		}
 	}
 	var args []AV
